@@ -421,3 +421,8 @@ def parse_replay_lines(out):
         elif line.startswith("REPLAY "):
             rows.append(json.loads(line[len("REPLAY "):]))
     return rows
+
+
+def nat_to_int(n):
+    """A BigNat of the traces (little-endian base-256 digits) as a Python integer."""
+    return sum(int(d) << (8 * i) for i, d in enumerate(n))
